@@ -19,13 +19,27 @@
 (* is done on the history, not by comparing with one predicted outcome).      *)
 (*                                                                            *)
 (* Emitters: Step_edge.cfg (VIEW + one shortest schedule per edge of the      *)
-(* scenario graph), Step_focus.cfg (the same for the membership-churn         *)
-(* sub-language: Subscribe / Unsubscribe / receive on-off / Publish - these   *)
-(* always run completely), Step_all.cfg (all sequences to a small depth),     *)
-(* Step_sim.cfg (-simulate, long random ones).  The configuration is not part *)
-(* of a scenario: the check driver pairs every scenario with configurations   *)
-(* from StepConfigs (back-end x ParallelDispatch x WorkerPoolSize x           *)
-(* BufferSize), always including a lossless one.                              *)
+(* scenario graph), Step_all.cfg (all sequences to a small depth),            *)
+(* Step_sim.cfg (-simulate, long random ones); for these the configuration is *)
+(* not part of a scenario: the check driver pairs every scenario with         *)
+(* configurations from StepConfigs (back-end x ParallelDispatch x             *)
+(* WorkerPoolSize x BufferSize), always including a lossless one.             *)
+(* Scenario families (Mode restricts the step vocabulary):                    *)
+(*  Step_focus.cfg    membership churn: Subscribe / Unsubscribe / receive     *)
+(*                    on-off / Publish, including redundant membership        *)
+(*                    operations (Unsubscribe twice, of nil, of a channel the *)
+(*                    broker never handed out) - idempotent set operations    *)
+(*  Step_busy.cfg     (Aware: per configuration) Subscribe / Unsubscribe      *)
+(*                    issued while the event loop is held up by a full        *)
+(*                    blocking distributor, publications by one or two        *)
+(*                    publishers pending behind it, until everybody receives  *)
+(*                    (does a call return before its effect is in place?)     *)
+(*  Step_buffered.cfg (Aware) buffered subscription channels, two workers,    *)
+(*                    subscriber pauses, Stop / parent cancel / Wait          *)
+(*  Step_window.cfg   (Aware, Holds) the dispatcher is held at the yield      *)
+(*                    point pubsub.wait.before-cond-wait - after its          *)
+(*                    emptiness check, before its park - while Stop / parent  *)
+(*                    cancel runs (cancel-between-check-and-park)             *)
 (*                                                                            *)
 (* A step that turns out not to be applicable in the real run (e.g. readon    *)
 (* for a subscriber whose Subscribe is still blocked) is logged as `skip`.    *)
